@@ -1,4 +1,4 @@
-import Holpy.C18.Model
+import Holpy.C18.ModelRules
 /-
 C18 — semantics of the term model (import-free, executable).
 
